@@ -627,34 +627,29 @@ func (w *worker) check(j *job) {
 			fmt.Println("real after RunPasses:", strings.Join(optLines, " | "))
 		}
 	}
-	// the verified checker `dceOK` on the REAL texts before / after the REAL passes (translation validation: accepted
-	// pairs have the same outcome by `frontmem_dce_validated`; a function in which the passes also renamed operands —
-	// alias resolution after a removed no-op shift — is not accepted and only counted)
+	// the verified checker `optValid` on the REAL texts before / after the REAL passes (translation validation:
+	// accepted pairs have the same outcome by `frontmem_opt_validated`, hence `frontmem_then_passes_refines`)
 	if realTok != "" && optTok != "" {
-		switch a := w.ask(topic + " dceok " + realTok + " | " + optTok); a {
+		switch a := w.ask(topic + " optok " + realTok + " | " + optTok); a {
 		case "1":
-			rep.Count("opt:validated-by-dceOK")
+			rep.Count("opt:validated-by-optValid")
 		case "0":
-			// the only other change the real passes make to a one-block function is passNopInstElimination (a shift by
-			// a constant multiple of the width becomes an alias, operands are renamed): if no shift disappeared, the
-			// passes did something that is not a dead-code elimination
-			if shiftRemoved(realLines, canonLines(optText)) {
-				rep.Count("opt:not-accepted-by-dceOK:a-shift-was-removed-(alias-resolution)")
-				if a2 := w.ask(topic + " optok " + realTok + " | " + optTok); a2 == "1" {
-					rep.Count("opt:validated-by-optValid-(with-aliases)")
-				} else {
-					violate("impl-violation", "C01:frontmem-real-passes-not-validated",
-						"the verified checker optValid (no-op shifts, alias resolution, dead code) rejects the REAL RunPasses output; before: "+realTok+" ; after: "+optTok, "1", a2)
-				}
-			} else {
-				violate("impl-violation", "C01:frontmem-real-passes-not-a-dead-code-elimination",
-					"the verified checker dceOK rejects the REAL RunPasses output as a dead-code elimination of the REAL front end's output, and no shift was removed (no alias resolution); before: "+realTok+" ; after: "+optTok, "1", a)
-			}
-			if j.verbose {
-				fmt.Println("dceOK does not accept the pair")
-			}
+			violate("impl-violation", "C01:frontmem-real-passes-not-validated",
+				"the verified checker optValid (no-op shifts, alias resolution, dead code) rejects the REAL RunPasses output as an optimisation of the REAL front end's output; before: "+realTok+" ; after: "+optTok, "1", a)
 		default:
-			hx.Fatal("%s dceok answered %q", topic, a)
+			hx.Fatal("%s optok answered %q", topic, a)
+		}
+		if j.hand || j.index%10 == 0 {
+			// for the statistics: the simpler checker (dead code only) accepts when no alias was needed
+			switch a := w.ask(topic + " dceok " + realTok + " | " + optTok); {
+			case a == "1":
+				rep.Count("opt:sampled:accepted-by-dceOK-too-(dead-code-only)")
+			case shiftRemoved(realLines, canonLines(optText)):
+				rep.Count("opt:sampled:needs-aliases-(a-no-op-shift-was-removed)")
+			default:
+				violate("impl-violation", "C01:frontmem-real-passes-not-a-dead-code-elimination",
+					"dceOK rejects the REAL RunPasses output although no shift was removed; before: "+realTok+" ; after: "+optTok, "1", a)
+			}
 		}
 	}
 	if j.verbose {
